@@ -111,7 +111,12 @@ type Path struct {
 	asserts    map[string]int
 	inconclusive []string
 	siblings   [][]Decision
+	execFns    map[*ssa.Function]int
+	modelFns   map[*ssa.Function]int
 }
+
+func (p *Path) noteExec(fn *ssa.Function)  { p.execFns[fn]++ }
+func (p *Path) noteModel(fn *ssa.Function) { p.modelFns[fn]++ }
 
 type knownPred struct {
 	id   string
